@@ -113,6 +113,7 @@ type TD struct {
 	ansKey    int64
 	answered  map[int]bool
 	overlaps  int
+	gone      bool
 	early     map[string]map[int]bool // collection event -> game indexes whose answer was accepted before the request was published
 	gateParts map[string]bool
 	gateSig   map[string]bool
@@ -252,6 +253,10 @@ func NewTD(rec *Recorder, sc *Scenario) *TD {
 				JoinPlayers: []pt.JoinPlayer{{PlayerID: "p1", RedeemChips: 10, Seat: 0}, {PlayerID: "p2", RedeemChips: 11, Seat: 2}}})
 			if bt != nil {
 				d.bystanders = append(d.bystanders, bt.ID)
+				// seated in at once: a reserved player would be sat in by the table's own 17 s timer, and the bystander
+				// tables are meant to be at rest while the table under test is driven
+				d.mgr.PlayerJoin(bt.ID, "p1")
+				d.mgr.PlayerJoin(bt.ID, "p2")
 			}
 		}
 	} else {
@@ -854,6 +859,9 @@ func (d *TD) call(name string, ap *Args, fn func() error) string {
 		}
 		d.rec.mu.Unlock()
 	}
+	if res == "ErrManagerTableNotFound" {
+		d.gone = true // the table has left the manager (closed / released): nothing more can be driven through it
+	}
 	d.rec.Emit("ret:"+name, *ap, res, d.te, nil, &pre, dg0 == dg1)
 	d.settle()
 	if d.rec.Events() != e0+1 {
@@ -941,10 +949,23 @@ func (d *TD) exec(o Op) string {
 		for i, id := range o.IDs {
 			parts[id] = i
 		}
-		return d.call("SetUpTableGame", &a, func() error { d.noteSetup(parts); te.SetUpTableGame(o.Gc, parts); return nil })
+		return d.call("SetUpTableGame", &a, func() error {
+			d.noteSetup(parts)
+			te.SetUpTableGame(o.Gc, parts)
+			if m, ok := te.(*mgrEngine); ok {
+				return m.takeVoidErr()
+			}
+			return nil
+		})
 	case "blind":
 		a.Blind = append([]int64{}, o.Blind...)
-		return d.call("UpdateBlind", &a, func() error { te.UpdateBlind(int(o.Blind[0]), o.Blind[1], o.Blind[2], o.Blind[3], o.Blind[4]); return nil })
+		return d.call("UpdateBlind", &a, func() error {
+			te.UpdateBlind(int(o.Blind[0]), o.Blind[1], o.Blind[2], o.Blind[3], o.Blind[4])
+			if m, ok := te.(*mgrEngine); ok {
+				return m.takeVoidErr() // (a released table is gone from the manager: the call is refused)
+			}
+			return nil
+		})
 	case "pause":
 		d.rec.Emit("call:PauseTable", a, "", d.te, nil, nil, false)
 		return d.call("PauseTable", &a, func() error { return te.PauseTable() })
@@ -1275,6 +1296,9 @@ func (d *TD) playHand(plan *HandPlan) string {
 		maxTurns = 400
 	}
 	for iter := 0; iter < 2000; iter++ {
+		if d.gone {
+			return "ended"
+		}
 		t = d.table()
 		st := t.State
 		if st.GameCount != gc0+1 {
@@ -1566,6 +1590,9 @@ func (d *TD) Run() string {
 		}
 		if d.stuck {
 			outcome = "stuck"
+			break
+		}
+		if d.gone {
 			break
 		}
 	}
